@@ -678,7 +678,8 @@ func (x *runner) deps(roots []string, hidden bool, level int) {
 	}
 	c.Oracle()
 	want := map[string]bool{}
-	shadow := map[string]bool{} // nodes below a node that is reachable at two different depths
+	shadow := map[string]bool{} // nodes below a node that is reachable (from the roots) at two different depths
+	minDist, maxLong := map[string]int{}, map[string]int{}
 	for _, root := range roots {
 		d := r.dist([]string{root}, hidden, false)
 		long := r.longest([]string{root}, hidden, false)
@@ -686,11 +687,22 @@ func (x *runner) deps(roots []string, hidden bool, level int) {
 			if n != root && within(dn, level) && (hidden || !isSub(n)) {
 				want[n] = true
 			}
-			if n != root && dn != inf && long[n] > dn {
-				for m := range r.reachable(n, nil) {
-					if m != n {
-						shadow[m] = true
-					}
+			if n == root || dn == inf {
+				continue
+			}
+			if v, ok := minDist[n]; !ok || dn < v {
+				minDist[n] = dn
+			}
+			if long[n] > maxLong[n] {
+				maxLong[n] = long[n]
+			}
+		}
+	}
+	for n, dn := range minDist {
+		if maxLong[n] > dn {
+			for m := range r.reachable(n, nil) {
+				if m != n {
+					shadow[m] = true
 				}
 			}
 		}
@@ -701,7 +713,7 @@ func (x *runner) deps(roots []string, hidden bool, level int) {
 	}
 	if len(missing) > 0 {
 		class := "deps-omits-target-within-level"
-		all := level >= 2
+		all := level >= 1
 		for _, m := range missing {
 			all = all && shadow[m]
 		}
@@ -735,6 +747,7 @@ func (x *runner) revdeps(roots []string, hidden bool, level int) {
 	// per root: the targets with a dependency chain of cost 1..level to the root (or to one of its own sub-targets)
 	want := map[string]bool{}
 	multi := false
+	minDist, maxLong := map[string]int{}, map[string]int{}
 	for _, root := range roots {
 		starts := []string{root}
 		if !hidden && !isSub(root) {
@@ -754,9 +767,20 @@ func (x *runner) revdeps(roots []string, hidden bool, level int) {
 					want[ruleOf(n)] = true
 				}
 			}
-			if dn != inf && long[n] > dn {
-				multi = true
+			if dn == inf {
+				continue
 			}
+			if v, ok := minDist[n]; !ok || dn < v {
+				minDist[n] = dn
+			}
+			if long[n] > maxLong[n] {
+				maxLong[n] = long[n]
+			}
+		}
+	}
+	for n, dn := range minDist {
+		if maxLong[n] > dn { // some target can be reached by dependency chains of different cost
+			multi = true
 		}
 	}
 	got := setOf(printed)
@@ -766,7 +790,7 @@ func (x *runner) revdeps(roots []string, hidden bool, level int) {
 	}
 	if len(missing) > 0 {
 		class := "revdeps-omits-target-within-level"
-		if level >= 2 && !hidden && multi {
+		if level >= 1 && !hidden && multi {
 			class = "revdeps-fifo-depth-shadowed-by-zero-cost-edge"
 		}
 		c.Fail(class, fmt.Sprintf("revdeps %v --level %d omits %v although within %d steps", roots, level, missing, level), x.input(q))
